@@ -40,7 +40,8 @@ TIE = ("T: stage chain of stop_daemons + phase list of stop_daemon (AST → Lean
 LEVEL_TEXT = (
     "Lean theorems for ALL label lists (cycles with any matching/marked/paused/DELETED inputs and any observation of the task, "
     "daemon-killer stages, the instance ending at any moment, any time steps, any backoff/timeout): at_most_one + "
-    "spawn_only_when_none, started_on_match, self_exit_is_remembered + no_restart_after_self_exit, staged + staged_monotone, "
+    "spawn_only_when_none, started_on_match, self_exit_is_remembered + no_restart_after_self_exit, final_failure_is_remembered + "
+    "no_respawn_after_final_failure (a timer failed for good: a6c10de), staged + staged_monotone, "
     "stop_reasons. The automaton is TIMED (`tickOk`, Model file: asyncio fires due timers — the clock cannot pass a round of the "
     "killer's pausing loop that has not swept a listed daemon, nor a stage deadline of a running stop_daemon coroutine); "
     "paused_daemon_is_cancelled / paused_daemon_is_abandoned are INVARIANTS of every reachable state (no hypothesis about the run): "
@@ -65,6 +66,7 @@ LEVEL_TEXT = (
     "model cannot exhibit: real threads of sync daemons, CPython's scheduling of same-instant callbacks.")
 THEOREMS = [("Kopf.Props.C09", "Kopf.C09." + n) for n in [
     "at_most_one", "spawn_only_when_none", "started_on_match", "self_exit_is_remembered", "no_restart_after_self_exit",
+    "final_failure_is_remembered", "no_respawn_after_final_failure",
     "staged", "staged_monotone", "stop_reasons",
     "first_round_within_period", "paused_daemon_is_cancelled", "paused_daemon_is_abandoned", "never_cancelled_without_timeout",
     "gone_unmarked_not_stopped", "orphan_never_stopped", "gone_unmarked_witness",
@@ -75,7 +77,7 @@ THEOREMS = [("Kopf.Props.C09", "Kopf.C09." + n) for n in [
 TIE_THEOREMS = [("Kopf.Tie.C09", "Kopf.C09.Tie." + n) for n in ["stage_eq", "killer_phases_eq", "timers_force_none",
                                                                          "timer_loop_guarded", "killer_iterates_snapshots",
                                                                          "sweep_unconditional", "killer_period_eq",
-                                                                         "loops_yield_each_iteration"]]
+                                                                         "loops_yield_each_iteration", "timer_failure_is_forever"]]
 RULE = ("seeded whole-operator histories: 1-2 objects, 1-3 daemons/timers (modes obey/cancel/ignore/exit; cancellation_backoff/"
         "timeout in {None,0,small,large}; timers with interval/idle/both/neither, sharp, initial_delay), optional label filter and "
         "change handler, timeline of label toggles, spec edits, graceful deletion, deletion before the finalizer lands, forced "
@@ -290,6 +292,8 @@ class Recorder:
                 rec["outcome"] = act if isinstance(act, str) else act[0]
                 if isinstance(act, list) and act[0] == "temp":
                     raise kopf.TemporaryError("scripted", delay=None if act[1] is None else float(act[1]))
+                if act == "perm":
+                    raise kopf.PermanentError("scripted: failed for good")
                 return None
             finally:
                 rec["t_end"] = self.sim.now()
@@ -844,8 +848,8 @@ def gen_scenario(rng: Any, seed: int) -> dict:
             if rng.random() < 0.25:
                 opts["initial_delay"] = rng.choice([0.5, 2.0])
             h = {"kind": "timer", "id": f"t{k}", "opts": opts, "tcfg": kind}
-            if rng.random() < 0.2:
-                h["script"] = [rng.choice(["ok", ["temp", 1.0]]) for _ in range(3)]
+            if rng.random() < 0.25:
+                h["script"] = [rng.choice(["ok", "ok", ["temp", 1.0], "perm"]) for _ in range(3)]
             if rng.random() < 0.12:       # an async handler that never awaits: the run does not yield
                 h["noawait"] = True
                 h["default"] = rng.choice(["ok", "ok", ["temp", 0.5], ["temp", 1.0], ["temp", 1.0 / 64], ["temp", 0.25], ["temp", 2.0],
@@ -1129,7 +1133,9 @@ def tie_requests(sc: dict, tr: dict) -> tuple[list, list, list, dict]:
     for i in inst.values():
         if i["seq_end"] is None or i["muted"] or i["own_exit"] is None:
             continue
-        reqs.append(["C09.exit", {"reasons": _model_reasons(i["final_reasons"]), "forever": False}])
+        failed_before = any(c.get("outcome") == "perm" and c["inc"] == i["inc"] and c["uid"] == i["uid"] and c["id"] == i["hid"]
+                            and c["t_end"] is not None and c["t_end"] <= i["t_end"] for c in tr["calls"])
+        reqs.append(["C09.exit", {"reasons": _model_reasons(i["final_reasons"]), "forever": failed_before}])
         impls.append({"forever": bool(i["end_forever"]), "running": bool(i["still_listed"]), "live": 0})
         where.append({"kind": "exit", "sid": i["sid"], "t": i["t_end"]})
         stats["exits"] += 1
@@ -1351,6 +1357,22 @@ def oracle(ctx: Ctx, sc: dict, res: dict) -> dict:
                 if c.get("outcome") == "own-exit" and not c.get("flag_at_exit") and cs[k + 1:]:
                     fail(f"daemon {key[2]} returned by itself at t={c['t_end']} and was called again at t={cs[k + 1]['t']}",
                          {"site": "daemons.spawn_daemons", "shape": "restarted after exiting on its own"})
+    # ---- O5b: a timer that has failed for good is not started (spawned, invoked) again within the incarnation -------------
+    for key, cs in calls_by.items():
+        h = hs.get(key[2])
+        if not h or h["kind"] != "timer":
+            continue
+        bad = next((c for c in cs if c.get("outcome") == "perm"), None)
+        if bad is None or bad["t_end"] is None:
+            continue
+        later_calls = [c for c in cs if c["t"] > bad["t_end"] or (c["t"] == bad["t_end"] and c.get("n", 0) > bad.get("n", 0))]
+        later_spawns = [i for i in by_key.get(key, []) if i["t_spawn"] > bad["t_end"]]
+        if (later_calls or later_spawns) and alive_inc(key[0], (later_calls or [{"t": later_spawns[0]["t_spawn"] if later_spawns else 0}])[0]["t"]):
+            fail(f"timer {key[2]} of {key[1]} failed for good at t={bad['t_end']} and was started again "
+                 f"(spawned at {[i['t_spawn'] for i in later_spawns]}, invoked at {[c['t'] for c in later_calls][:3]})",
+                 {"site": "daemons._timer", "shape": "timer started again after its final failure"})
+        else:
+            ctx.count("final_failure", "stays down")
     # ---- O2: started when the object appears / starts matching ----------------------------------------------------------
     eps = 1.0 / 128
     for inc, iv in incs.items():
@@ -1368,6 +1390,10 @@ def oracle(ctx: Ctx, sc: dict, res: dict) -> dict:
                         continue                                  # does not stay that way long enough to judge
                     if any(i["own_exit"] and t_end(i) <= a + d for i in lst):
                         ctx.count("start_trigger", "exited on its own before: must stay down")
+                        continue
+                    if any(c.get("outcome") == "perm" and c["t_end"] is not None and c["t_end"] <= a + d
+                           for c in calls_by.get((inc, uid, hid), [])):
+                        ctx.count("start_trigger", "failed for good before: must stay down")
                         continue
                     if any(i["t_spawn"] < a < t_end(i) for i in lst):
                         ctx.count("start_trigger", "previous instance still there (deferred)")
@@ -1765,6 +1791,11 @@ def extract(ctx: Ctx) -> None:
             f"def sweepUnconditional : Bool := {'true' if unconditional else 'false'}\n\n"
             "/-- `asyncio.timeout(...)` between two rounds of the pausing loop, in ticks -/\n"
             f"def killerPeriod : Tick := {int(float(periods[0]) * 64)}\n\n")
+    ft = pyextract.find_def(tree, "_timer")
+    ff = [n for n in ast.walk(ft) if isinstance(n, ast.If) and pyextract.norm(n.test) == "state.done and state.counts.failure"
+          and any(pyextract.norm(x) == "memory.forever_stopped.add(handler.id)" for x in n.body)]
+    out += ("/-- `_timer`: `if state.done and state.counts.failure: memory.forever_stopped.add(handler.id)` (label `failForGood`) -/\n"
+            f"def timerFailureIsForever : Bool := {'true' if len(ff) == 1 else 'false'}\n\n")
     out += ("/-- the retry loops of `_timer` and `_daemon` contain an unconditional `await asyncio.sleep(0)` at the top level of their body -/\n"
             f"def loopsYieldEachIteration : Bool := {'true' if loops_yield_each_iteration(tree) else 'false'}\n\n")
     out += "end Kopf.C09.Extracted\n"
